@@ -30,7 +30,7 @@ func run(c *vf.Ctx) {
 	c.Assume("state of a node = bytes of db.sqlite and db.sqlite-wal read from disk at quiescence (no request in flight, every node's FSM index caught up with the leader's), the logical dump of a private copy of these two files (sqlref.DumpFile: schema, all rows with storage classes, user_version, application_id), file sizes, raft commit/applied/db-applied index; the dump is recomputed whenever the bytes differ")
 	c.Assume("which statements a unified request treats as read-only is taken from the real code: the statement goes through command/sql.Process and Store.RORWCount exactly as in the HTTP handler and Store.Request; a unified request is judged when rqlite treats the generated text as read-only (alone, or next to the harness's own `DELETE FROM t1 WHERE 0`), otherwise its effect is accepted as a write and the baseline is re-read")
 	c.Assume("snapshots are disabled in the harness cluster (they checkpoint the WAL legitimately); files created by ATTACH / VACUUM INTO outside the node's database are counted, not judged; temp objects are connection-local and not part of the dump; after a text containing BEGIN/SAVEPOINT was sent to the unified endpoint the harness sends ROLLBACK through /db/execute so that an open transaction cannot hide later changes")
-	c.Assume("a change of file bytes with identical dump and identical sizes is counted only; a transport error, a missing leader or nodes not quiescing within 60 s give no verdict (inconclusive)")
+	c.Assume("a change of file bytes with identical dump and identical sizes is counted only; a transport error, a 5xx / time-out reply, a missing leader or nodes not quiescing within 60 s give no verdict (inconclusive)")
 
 	tmp := vf.TempDir("c17")
 	defer os.RemoveAll(tmp)
@@ -45,9 +45,9 @@ func run(c *vf.Ctx) {
 		return
 	}
 
-	nTexts := c.N(480, 4000)
+	nTexts := c.N(480, 3200)
 	nCombos := c.N(6, 12)
-	batch := c.N(120, 250)
+	batch := c.N(120, 200)
 	type job struct{ lo, hi int }
 	jobs := make(chan job, nTexts/batch+1)
 	for lo := 0; lo < nTexts; lo += batch {
